@@ -191,6 +191,36 @@ Theorem C15_paradiag_error_equation :
   = match l with O => - (alpha * (u (pred N) (pred M) i - ustar (pred N) (pred M) i)) | S _ => 0 end.
 Proof. exact (error_equation F f0 f1 fadd fmul fsub fopp fdiv finv Fth). Qed.
 
+(* (7) frame / idempotence of the public QDiagonalization.set_G_inv: everything update_nodes reads
+   (params.G_inv and the diagonalisation of Q G^-1) is a function of the LAST argument of set_G_inv
+   only, and the stored factor is that argument; hence, whatever the sweeper was configured with
+   before, one update_nodes after set_G_inv g solves the local system of G = g^-1. *)
+Theorem C15_set_G_inv_frame :
+  forall (eig : mat F -> (nat -> F) * mat F * mat F) (M : nat) (Q : mat F) (st st' : qd_state F) (g1 g2 : mat F),
+  set_G_inv F f0 fadd fmul eig M Q st g2 = set_G_inv F f0 fadd fmul eig M Q st' g2 /\
+  set_G_inv F f0 fadd fmul eig M Q (set_G_inv F f0 fadd fmul eig M Q st g1) g2 = set_G_inv F f0 fadd fmul eig M Q st g2 /\
+  st_Ginv F (set_G_inv F f0 fadd fmul eig M Q st g2) = g2.
+Proof.
+  intros. split; [|split].
+  - exact (set_G_inv_frame F f0 fadd fmul eig M Q st st' g2).
+  - exact (set_G_inv_last_wins F f0 fadd fmul eig M Q st g1 g2).
+  - exact (set_G_inv_stores F f0 fadd fmul eig M Q st g2).
+Qed.
+
+Theorem C15_one_shot_after_set_G_inv :
+  forall (eig : mat F -> (nat -> F) * mat F * mat F) (M n : nat) (dt : F) (Q A G g : mat F)
+         (solve : F -> vec F -> vec F) (st : qd_state F),
+  (let '(w, Sm, Smi) := eig (mm M Q g) in
+     (forall i j, (i < M)%nat -> (j < M)%nat -> mm M Sm Smi i j = dl i j) /\
+     (forall i j, (i < M)%nat -> (j < M)%nat -> mm M (mm M Q g) Sm i j = Sm i j * w j) /\
+     (forall m rhs i, (m < M)%nat -> (i < n)%nat ->
+        solve (w m * dt) rhs i - (w m * dt) * appA n A (solve (w m * dt) rhs) i = rhs i)) ->
+  (forall i j, (i < M)%nat -> (j < M)%nat -> mm M G g i j = dl i j) ->
+  forall r m i, (m < M)%nat -> (i < n)%nat ->
+  let x := update_nodes_st F f0 fadd fmul M dt (set_G_inv F f0 fadd fmul eig M Q st g) solve r in
+  mv M G x m i - sum M (fun j => (dt * Q m j) * appA n A (x j) i) = r m i.
+Proof. exact (one_shot_after_set_G_inv F f0 f1 fadd fmul fsub fopp fdiv finv Fth). Qed.
+
 End C15.
 
 Print Assumptions C15_weighted_fft_inverse.
@@ -204,6 +234,8 @@ Print Assumptions C15_qdiag_one_shot.
 Print Assumptions C15_paradiag_increment_solves_alpha_system.
 Print Assumptions C15_paradiag_fixed_point_is_sequential.
 Print Assumptions C15_paradiag_error_equation.
+Print Assumptions C15_set_G_inv_frame.
+Print Assumptions C15_one_shot_after_set_G_inv.
 
 (* ---- non-vacuity: the Gaussian rationals are a field and every hypothesis above is satisfiable on
    non-trivial instances (N = 4, om = -i, alpha = 1/16; M = 2 one-shot; 4-step implicit-Euler block) *)
